@@ -1,5 +1,6 @@
 import BtcwVerif.Lemmas.Balance
 import BtcwVerif.Lemmas.InvPres
+import BtcwVerif.Lemmas.WFMined
 /-!
 # C01 — balance and spendable outputs equal ledger truth
 
@@ -321,6 +322,186 @@ theorem C01_rollback_restores_spent_credit (rec : Tx) (blk : Block) (r : RB) (i 
   simp only [rbInput, hd', unspendRawCredit, hc', contains_eq, find?_insert_self, Option.isSome_some,
     Bool.not_true, Bool.false_eq_true, if_false, find?_erase_self]
   exact ⟨trivial, trivial, trivial, trivial⟩
+
+/-! ### all store operations except `Rollback`: the lookup-level invariant `WF` (which implies `Inv`) is preserved -/
+
+/-- one call of the store API (the calls the wallet makes for the events *seen*, *confirmed*, *abandoned*, *lease*,
+*release*, *sweep*) -/
+inductive Call
+  | insertUnmined (rec : Tx)
+  | addCreditUnmined (rec : Tx) (i : Nat) (chg : Bool)
+  | insertMined (rec : Tx) (bm : BlockMeta)
+  | addCreditMined (rec : Tx) (bm : BlockMeta) (i : Nat) (chg : Bool)
+  | removeUnmined (rec : Tx)
+  | lock (id : Nat) (op : OutPoint) (d : Int)
+  | unlock (id : Nat) (op : OutPoint)
+  | sweep
+
+/-- effect at clock `now`; a failing call leaves the store unchanged (the DB transaction rolls back) -/
+def Call.run (s : Store) (now : Nat) : Call → Store
+  | .insertUnmined rec => match insertTx s rec none with | .ok (_, s') => s' | .error _ => s
+  | .addCreditUnmined rec i chg => match addCredit s rec none i chg with | .ok s' => s' | .error _ => s
+  | .insertMined rec bm => match insertTx s rec (some bm) with | .ok (_, s') => s' | .error _ => s
+  | .addCreditMined rec bm i chg => match addCredit s rec (some bm) i chg with | .ok s' => s' | .error _ => s
+  | .removeUnmined rec => match removeUnminedTx s rec with | .ok s' => s' | .error _ => s
+  | .lock id op d => match lockOutput s now id op d with | .ok (_, s') => s' | .error _ => s
+  | .unlock id op => match unlockOutput s now id op with | .ok s' => s' | .error _ => s
+  | .sweep => deleteExpiredLockedOutputs s now
+
+/-- chain consistency, read on the store: a transaction is confirmed in a block only if it is already recorded there
+(redelivery) or recorded nowhere, the block at that height (if any) has that hash, and the unconfirmed credits kept for
+its hash are outputs of it; a mined credit is added only for a transaction recorded in that block. -/
+def Call.Pre (s : Store) : Call → Prop
+  | .insertMined rec bm => s.txrecs.contains ⟨rec.hash, bm.block⟩ = true ∨ ConfirmPre s rec bm
+  | .addCreditMined rec bm _ _ => s.txrecs.find? ⟨rec.hash, bm.block⟩ = some rec
+  | _ => True
+
+theorem wf_run (s : Store) (now : Nat) (c : Call) (hw : WF s) (hp : c.Pre s) : WF (c.run s now) := by
+  cases c with
+  | insertUnmined rec =>
+    simp only [Call.run]
+    split
+    · rename_i ex s' h
+      unfold insertTx at h
+      simp only at h
+      split at h
+      · cases h; exact hw
+      · cases h
+      · rename_i s2 h2
+        have hsm := sameMined_insertMemPoolTx h2
+        have huc : s2.unminedCredits = s.unminedCredits := by
+          unfold insertMemPoolTx at h2
+          split at h2
+          · cases h2
+          · split at h2
+            · cases h2; rfl
+            · cases h2
+              have : ∀ (l : List OutPoint) (a : Store),
+                  (l.foldl (fun s inp => putRawUnminedInput s inp rec.hash) a).unminedCredits = a.unminedCredits := by
+                intro l; induction l with
+                | nil => intro a; rfl
+                | cons x t ih => intro a; rw [List.foldl_cons, ih]; rfl
+              exact this rec.ins _
+        have hw2 := wf_of_sameMined hsm (by rw [huc]; exact hw.nodupUC) hw
+        cases h; exact hw2
+    · exact hw
+  | addCreditUnmined rec i chg =>
+    simp only [Call.run]
+    split
+    · rename_i s' h
+      have hsm := sameMined_addCredit_unmined h
+      have hn : NodupKeys s'.unminedCredits := by
+        unfold addCredit at h
+        split at h
+        · cases h
+        · simp only at h
+          split at h
+          · cases h; exact hw.nodupUC
+          · split at h
+            · cases h; exact hw.nodupUC
+            · cases h; exact nodupKeys_insert _ _ _ hw.nodupUC
+      exact wf_of_sameMined hsm hn hw
+    · exact hw
+  | insertMined rec bm =>
+    simp only [Call.run]
+    split
+    · rename_i ex s' h
+      unfold insertTx at h
+      simp only at h
+      split at h
+      · cases h; exact hw
+      · cases h
+      · rename_i s2 h2
+        have hw2 : WF s2 := by
+          rcases hp with hdup | hpre
+          · unfold insertMinedTx at h2
+            simp [hdup] at h2
+          · exact wf_insertMinedTx hw hpre h2
+        cases h; exact hw2
+    · exact hw
+  | addCreditMined rec bm i chg =>
+    simp only [Call.run]
+    split
+    · rename_i s' h; exact wf_addCredit_mined hw h hp
+    · exact hw
+  | removeUnmined rec =>
+    simp only [Call.run]
+    split
+    · rename_i s' h
+      exact wf_of_sameMined (sameMined_removeUnminedTx h) (nuc_removeConflict _ _ _ _ h hw.nodupUC) hw
+    · exact hw
+  | lock id op d =>
+    simp only [Call.run]
+    split
+    · rename_i e s' h
+      have hsm := sameMined_lockOutput h
+      have huc : s'.unminedCredits = s.unminedCredits := by
+        by_cases hk : isKnownOutput s op = true
+        · cases hl : isLockedOutput s op now with
+          | none => simp [lockOutput, hk, hl] at h; obtain ⟨_, rfl⟩ := h; rfl
+          | some l =>
+            by_cases hid : l.id = id
+            · simp [lockOutput, hk, hl, hid] at h; obtain ⟨_, rfl⟩ := h; rfl
+            · simp [lockOutput, hk, hl, hid] at h
+        · simp [lockOutput, hk] at h
+      exact wf_of_sameMined hsm (by rw [huc]; exact hw.nodupUC) hw
+    · exact hw
+  | unlock id op =>
+    simp only [Call.run]
+    split
+    · rename_i s' h
+      have hsm := sameMined_unlockOutput h
+      have huc : s'.unminedCredits = s.unminedCredits := by
+        unfold unlockOutput at h
+        split at h
+        · cases h
+        · split at h
+          · cases h; rfl
+          · split at h
+            · cases h
+            · cases h; rfl
+      exact wf_of_sameMined hsm (by rw [huc]; exact hw.nodupUC) hw
+    · exact hw
+  | sweep =>
+    have huc : (deleteExpiredLockedOutputs s now).unminedCredits = s.unminedCredits := sweep_uc s now
+    show WF (deleteExpiredLockedOutputs s now)
+    exact wf_of_sameMined (sameMined_sweep s now) (by rw [huc]; exact hw.nodupUC) hw
+
+/-- run a history of calls; every call comes with the clock value at which it is made -/
+def runCalls : Store → List (Nat × Call) → Store
+  | s, [] => s
+  | s, p :: t => runCalls (p.2.run s p.1) t
+
+/-- the consistency precondition holds at every step of the history -/
+def PreAll : Store → List (Nat × Call) → Prop
+  | _, [] => True
+  | s, p :: t => p.2.Pre s ∧ PreAll (p.2.run s p.1) t
+
+theorem wf_empty : WF Store.empty := by
+  refine ⟨List.nodup_nil, List.nodup_nil, List.nodup_nil, List.Pairwise.nil, ?_, ?_, ?_, ?_, ?_, ?_, rfl⟩
+  · intro p hp; cases hp
+  · intro p hp; cases hp
+  · intro k rec h; cases h
+  · intro k1 k2 h; cases h
+  · intro k cv h; cases h
+  · intro op blk
+    constructor
+    · intro h; cases h
+    · rintro ⟨cv, h, _⟩; cases h
+
+theorem wf_runCalls (s : Store) (hw : WF s) (ops : List (Nat × Call)) (hp : PreAll s ops) : WF (runCalls s ops) := by
+  induction ops generalizing s with
+  | nil => exact hw
+  | cons p t ih => exact ih _ (wf_run s p.1 p.2 hw hp.1) hp.2
+
+/-- **Balance = the C01 sentence on the store's records after every chain-consistent history of store calls without
+`Rollback`**, starting from the empty store: any number of unconfirmed/confirmed insertions (with redelivery), credits,
+abandonments, leases, releases, sweeps, at any clock values; for every probe instant, maturity, minConf, syncHeight.
+`_partial`: the event *disconnected* (`Rollback`) is not covered by this theorem. -/
+theorem C01_balance_no_reorg_partial (ops : List (Nat × Call)) (hp : PreAll Store.empty ops)
+    (now : Nat) (mat m sy : Int) :
+    balance (runCalls Store.empty ops) now mat m sy = .ok (storeTruth (runCalls Store.empty ops) now mat m sy) :=
+  C01_balance_partial _ (inv_of_wf _ (wf_runCalls _ wf_empty ops hp)) now mat m sy
 
 /-- non-vacuity of `C01_balance_partial`: the example store satisfies `Inv` -/
 example : Inv exStore := invB_sound _ (by decide)
